@@ -7,7 +7,7 @@ Every random choice comes from one SplitMix64 state, so a trace is reproducible 
   own    operation whose (projected) output the property under check speaks about
 """
 
-GEN_VERSION = 15
+GEN_VERSION = 16
 
 MASK64 = (1 << 64) - 1
 
@@ -731,7 +731,10 @@ def gen_C20(t, n):
             for k2 in ("iter", "len", "shape", "snap"):
                 t.emit("%s %s" % (k2, reg), "own")
         elif c < 62 and reg != "S":
-            t.emit("entry %s %s %s" % (reg, t.u.p(), r.pick(["or_insert_with_panic", "vac_insert_with_panic", "and_modify 1 or_insert_with_panic"])), "own")
+            if r.chance(40):
+                t.emit("entry %s %s %s" % (reg, t.existing(reg), r.pick(["and_modify_panic or_insert %d" % t.v(), "and_modify_panic key", "and_modify_panic or_default"])), "own")
+            else:
+                t.emit("entry %s %s %s" % (reg, t.u.p(), r.pick(["or_insert_with_panic", "vac_insert_with_panic", "and_modify 1 or_insert_with_panic"])), "own")
             for k2 in ("iter", "len", "shape", "snap"):
                 t.emit("%s %s" % (k2, reg), "own")
         elif c < 70:
